@@ -3,6 +3,7 @@
 package core
 
 import (
+	"bytes"
 	"encoding/hex"
 	"encoding/json"
 	"fmt"
@@ -193,8 +194,8 @@ type Rec struct {
 	extra     map[string]interface{}
 	known     []string
 
-	violation *Case
-	vioErr    string
+	violation    *Case
+	vioErr       string
 	inconclusive string
 
 	start time.Time
@@ -448,6 +449,15 @@ func (r *Rec) Fail(c *Case, err error) {
 	r.mu.Lock()
 	defer r.mu.Unlock()
 	c.Prop = r.Cfg.Prop
+	// a byte-level case built from a copy of the in-flight input: what lay behind that input
+	// within its capacity belongs to the case (see props.inputOf)
+	if in := r.curIn; len(c.Bufs) == 0 && len(c.Steps) == 0 && cap(in) > len(in) && bytes.Equal(in, c.In) {
+		spare := cap(in) - len(in)
+		if spare > 32 {
+			spare = 32
+		}
+		c.Bufs = []HexBytes{append([]byte(nil), in[len(in):len(in)+spare]...)}
+	}
 	c.fill()
 	cc := *c
 	cc.Note = err.Error()
